@@ -19,6 +19,11 @@ typedef struct {
 	char hist[1500]; size_t hw;
 	uint64_t idx;
 	bool failed;
+	// one lzma_filters_update() attempted between two lzma_code(LZMA_RUN) calls, at call number intr_at of the case
+	// (output is kept tiny until then, so the call boundary can fall inside a header that is being copied out)
+	int intr_kind;            // 0 none, 1 whole new chain, 2 same chain with other lc/lp/pb
+	uint64_t intr_at, ncalls; const lzma_filter *intr_filters;
+	bool intr_done; lzma_ret intr_ret; size_t intr_fed, intr_out;
 } fcase;
 
 static bool chain_has_bcj(const lzma_filter *f)
@@ -49,9 +54,15 @@ static lzma_ret feed(fcase *c, vrng *r, size_t n, lzma_action action, bool tiny_
 	if (n == 0 && action == LZMA_RUN) return LZMA_OK;
 	bool prev_noprog = false;
 	for (;;) {
+		if (c->intr_kind > 0 && !c->intr_done && c->ncalls >= c->intr_at) {
+			c->intr_ret = lzma_filters_update(&c->strm, c->intr_filters);
+			c->intr_done = true; c->intr_fed = c->fed; c->intr_out = c->out.n;
+		}
+		if (c->intr_kind > 0 && !c->intr_done) tiny_out = true;
 		size_t left = end - c->fed;
 		size_t ai = left;
 		if (action == LZMA_RUN && left > 1 && vrng_chance(r, 1, 2)) ai = 1 + (size_t)vrng_below64(r, left);
+		if (c->intr_kind > 0 && !c->intr_done && ai > 1 && vrng_chance(r, 2, 3)) { size_t few = 1 + vrng_below(r, 4); if (few < ai) ai = few; }
 		size_t ao = tiny_out ? 1 + vrng_below(r, 3) : 1 + vrng_logsize(r, 100000);
 		if (ai > vh_window_max()) ai = vh_window_max();
 		lzma_action a = action;
@@ -63,6 +74,7 @@ static lzma_ret feed(fcase *c, vrng *r, size_t n, lzma_action action, bool tiny_
 			// protocol: same avail_in until STREAM_END -> loop here
 			for (;;) {
 				lzma_ret ret = lzma_code(&c->strm, a);
+				++c->ncalls;
 				size_t dout = ao - c->strm.avail_out; size_t din = ai - c->strm.avail_in;
 				if (!vh_out_canary_ok()) return LZMA_PROG_ERROR;
 				vbuf_append(&c->out, op, dout);
@@ -77,6 +89,7 @@ static lzma_ret feed(fcase *c, vrng *r, size_t n, lzma_action action, bool tiny_
 			}
 		}
 		lzma_ret ret = lzma_code(&c->strm, LZMA_RUN);
+		++c->ncalls;
 		size_t dout = ao - c->strm.avail_out; size_t din = ai - c->strm.avail_in;
 		vbuf_append(&c->out, op, dout);
 		c->fed += din;
@@ -154,6 +167,20 @@ static void run_case(uint64_t idx)
 	gen_data(&r, &c.in, total, -1, c.cfg.lzma.dict_size);
 	hx_sample("c12 enc=%s cfg=%s total=%zu segs=%u threads=%u bs=%" PRIu64 " can_sync=%d", e_names[c.e], c.cfg.desc, total, nseg, c.threads, c.block_size, can_sync);
 	bool tiny = vrng_chance(&r, 1, 6) && total < 30000;
+	vcfg intrcfg; bool intrcfg_valid = false; lzma_options_lzma intropt; lzma_filter intrf[LZMA_FILTERS_MAX + 1];
+	if (vrng_chance(&r, 1, 4)) {
+		if ((c.e == E_STREAM || c.e == E_MT) && vrng_chance(&r, 2, 3)) {
+			gen_cfg(&r, &intrcfg, (unsigned)VCFG_XZ & ~(unsigned)VCFG_ALLOW_BCJ, 1u << 18); intrcfg_valid = true;
+			c.intr_kind = 1; c.intr_filters = intrcfg.filters;
+		} else if (c.e != E_ALONE && c.e != E_MT && chain_last_is_lzma2(c.cfg.filters)) {
+			memcpy(intrf, c.cfg.filters, sizeof(intrf)); intropt = c.cfg.lzma;
+			intropt.lc = vrng_below(&r, 5); intropt.lp = vrng_below(&r, 5 - intropt.lc); intropt.pb = vrng_below(&r, 5);
+			intrf[c.cfg.nfilters - 1].options = &intropt;
+			c.intr_kind = 2; c.intr_filters = intrf;
+		}
+		// mostly within the first calls (Stream Header / first Block Header being copied out), sometimes anywhere
+		c.intr_at = vrng_chance(&r, 3, 4) ? vrng_below(&r, 40) : vrng_below(&r, 3000);
+	}
 	lzma_ret ret;
 	switch (c.e) {
 	case E_STREAM: ret = lzma_stream_encoder(&c.strm, c.cfg.filters, c.cfg.check); break;
@@ -186,6 +213,15 @@ static void run_case(uint64_t idx)
 		hist_add(&c, "[%zu,a=%d]", seg_n[i], (int)a);
 		ret = feed(&c, &r, seg_n[i], a, tiny);
 		hx_eval();
+		if (c.intr_done && c.intr_kind > 0) {
+			// (applied once; a refused change must leave the encoder usable: the rest of the script is the test)
+			hist_add(&c, "{call %" PRIu64 ": %s at in=%zu out=%zu -> %s}", c.intr_at, c.intr_kind == 1 ? "new chain" : "lc/lp/pb", c.intr_fed, c.intr_out, lzma_ret_name(c.intr_ret));
+			if (c.intr_ret == LZMA_OK) {
+				hx_count(c.intr_kind == 1 ? "midrun_chain_update_accepted" : "midrun_lclppb_update_accepted", 1);
+				if (c.intr_kind == 1) { cur = &intrcfg; can_sync = true; }
+			} else hx_count(c.intr_kind == 1 ? "midrun_chain_update_refused" : "midrun_lclppb_update_refused", 1);
+			c.intr_kind = -c.intr_kind;
+		}
 		if (a == LZMA_RUN) {
 			if (ret != LZMA_OK) { snprintf(key, sizeof(key), "run-failed|%s", e_names[c.e]); hx_violation("C12", key, idx, "LZMA_RUN step returned %s; cfg=%s; script %s", lzma_ret_name(ret), c.cfg.desc, c.hist); c.failed = true; }
 			continue;
@@ -370,6 +406,7 @@ static void run_case(uint64_t idx)
 	if (newcfg_valid) vcfg_free(&newcfg);
 	for (unsigned i = 0; i < nold; ++i) vcfg_free(&oldcfgs[i]);
 done:
+	if (intrcfg_valid) vcfg_free(&intrcfg);
 	lzma_end(&c.strm);
 	vbuf_free(&c.in); vbuf_free(&c.out); vcfg_free(&c.cfg);
 }
